@@ -133,6 +133,10 @@ def s_folded_consumers(rng, nval):
             # comparison of anonymous typed constants selecting an input (folds at IR level)
             prog.append(["sig", "cf", ["s", ["c", ">", ["t", tk, ["n", c1 + 5]], ["n", c2]], ["v", "a"]]])
             prog.append(["sig", "cg", ["p", ["s", ["c", "<", ["t", tk, ["n", c1]], ["n", c2 - 30]], ["v", "a"]], types.fresh()]])
+            # constant condition, computed (run-time) value: the fold may not turn the result into a constant
+            prog.append(["sig", "dd", ["b", "*", ["v", "a"], ["n", 2]]])
+            prog.append(["sig", "ch", ["s", ["c", ">", ["p", ["t", tk, ["n", c1 + 5]], types.fresh()], ["n", c2]], ["v", "dd"]]])
+            prog.append(["sig", "ci", ["p", ["s", ["c", ">", ["t", tk, ["n", c1 + 5]], ["n", c2]], ["b", "+", ["v", "a"], ["n", 3]]], types.fresh()]])
         k += 1
     stateful_ = any(s[0] in ("mem",) for s in prog)
     return _mk(prog, "folded_constant_consumers", rng, nval, edges={"a": list(range(-3, 12)), "b": [0, 1]},
